@@ -27,6 +27,7 @@ type c18Layer struct {
 }
 
 type c18Case struct {
+	Sort   string     `json:"sort,omitempty"` // globsort case (c18_sort.go): the stack, by layer names
 	Layers []c18Layer `json:"layers"`
 }
 
@@ -54,7 +55,7 @@ func init() {
 
 func (p *c18) ID() string { return "C18" }
 func (p *c18) Rule() string {
-	return "every stack of L layers (quick: L<=2 plus every 3-layer stack with a nil layer or a repeated state; thorough: all L<=4) where each layer is nil or one of 48 MapFS states over {a, d, d/x, d/y, e, e/z} (a,d,e absent/file; d,e also directory incl. explicitly empty); each stack is queried with ReadFile/Stat/ReadDir on every name of the universe, '.', a missing name, and 7 glob patterns; non-trivial = stack with at least one non-nil layer; distinct by the tuple of layer states"
+	return "every stack of L layers (quick: L<=2 plus every 3-layer stack with a nil layer or a repeated state; thorough: all L<=4) where each layer is nil or one of 48 MapFS states over {a, d, d/x, d/y, e, e/z} (a,d,e absent/file; d,e also directory incl. explicitly empty); each stack is queried with ReadFile/Stat/ReadDir on every name of the universe, '.', a missing name, and 7 glob patterns; globsort cases: 10 stacks over two fixed layers whose directory names are prefixes of one another followed by a character that sorts before '/' (l, l-v2, l.bak, 'l x', l!), 6 patterns with a wildcard directory part, against the sorted union of fs.Glob per layer; non-trivial = stack with at least one non-nil layer; distinct by the tuple of layer states"
 }
 
 func (p *c18) stacks(ctx core.Ctx) int {
@@ -66,9 +67,12 @@ func (p *c18) stacks(ctx core.Ctx) int {
 	return t
 }
 
-func (p *c18) Plan(ctx core.Ctx) int { return p.stacks(ctx) }
+func (p *c18) Plan(ctx core.Ctx) int { return p.stacks(ctx) + c18NSort() }
 
 func (p *c18) Gen(ctx core.Ctx, i int) any {
+	if i >= p.stacks(ctx) {
+		return c18SortCase(i - p.stacks(ctx))
+	}
 	n := len(p.states)
 	var idx []int
 	switch {
@@ -154,6 +158,9 @@ var c18Globs = []string{"*", "*/*", "d/*", "?", "[ad]*", "e/z", "zz*", "[a"}
 
 func (p *c18) Exec(ctx core.Ctx, cc any) core.Obs {
 	c := cc.(c18Case)
+	if c.Sort != "" {
+		return c18ExecSort(c)
+	}
 	var o core.Obs
 	if len(c.Layers) == 0 {
 		return o
